@@ -740,7 +740,12 @@ def parse_primary(p, nostruct):
                 else:
                     eb = parse_block(p)
             return ("if", c, tb, eb)
-        if tok.val in ("match", "loop", "while", "for", "return", "break", "continue", "unsafe", "move"):
+        if tok.val == "return":
+            p.next()
+            if p.at(";") or p.at("}"):
+                return ("return", ("tuple", []))
+            return ("return", parse_expr(p, nostruct=nostruct))
+        if tok.val in ("match", "loop", "while", "for", "break", "continue", "unsafe", "move"):
             raise TranslateError("%s:%d: control flow %r not supported in kernels" % (p.file, tok.line, tok.val))
         # path, possibly followed by struct literal or macro
         segs = [p.ident()]
@@ -821,6 +826,13 @@ class SClosure:
         self.pats, self.body, self.env = pats, body, env
 
 
+class Returned:
+    """value produced by a `return` statement: propagates to the enclosing function call"""
+
+    def __init__(self, value):
+        self.value = value
+
+
 class Place:
     """a mutable location: container object + key"""
 
@@ -834,7 +846,7 @@ def is_scalar(v):
 
 
 def is_bool(v):
-    return isinstance(v, tuple) and len(v) > 0 and v[0] in ("Lt", "Le", "And", "Or", "Not", "True", "False",
+    return isinstance(v, tuple) and len(v) > 0 and v[0] in ("Lt", "Le", "Eqf", "And", "Or", "Not", "True", "False",
                                                              "AbsDiffEq", "RelEq", "BAll")
 
 
@@ -1035,7 +1047,8 @@ class Interp:
                     a = copy.deepcopy(a)
                 self.bind(pat, a, env)
             env.vars["__file__"] = fn.file
-            return self.eval_block(fn_ast(fn), env)
+            r = self.eval_block(fn_ast(fn), env)
+            return r.value if isinstance(r, Returned) else r
         finally:
             self.depth -= 1
 
@@ -1067,17 +1080,45 @@ class Interp:
     # -------- blocks / statements
     def eval_block(self, blk, env):
         env = Env(env)
-        for s in blk[1]:
+        return self.eval_stmts(list(blk[1]), blk[2], env)
+
+    def eval_stmts(self, stmts, tail, env):
+        """statements with support for the early-return idiom `if c { return e; }` (turned into a conditional whose
+        else-branch is the rest of the block); Returned marks a value that leaves the enclosing function"""
+        for ix, s in enumerate(stmts):
             if s[0] == "let":
                 v = self.eval(s[2], env)
                 if self.is_place_expr(s[2]):
                     v = copy.deepcopy(v)
                 self.bind(s[1], v, env)
+            elif s[0] == "return":
+                return Returned(self.eval(s[1], env))
+            elif s[0] == "if" and s[3] is None and self.block_returns(s[2]):
+                c = self.eval(s[1], env)
+                if not is_bool(c):
+                    raise TranslateError("if condition is not a comparison")
+                t = self.eval_block(s[2], env)
+                if not isinstance(t, Returned):
+                    raise TranslateError("early-return block does not return on every path")
+                # the rest of the block is the else branch; mutations made in either branch must not leak into the other
+                env2 = copy.deepcopy(env)
+                f = self.eval_stmts(stmts[ix + 1:], tail, env2)
+                fval = f.value if isinstance(f, Returned) else f
+                return Returned(self.select(c, t.value, fval)) if isinstance(f, Returned) or True else None
             else:
-                self.eval(s, env)
-        if blk[2] is not None:
-            return self.eval(blk[2], env)
+                r = self.eval(s, env)
+                if isinstance(r, Returned):
+                    return r
+        if tail is not None:
+            if tail[0] == "return":
+                return Returned(self.eval(tail[1], env))
+            return self.eval(tail, env)
         return STuple([])
+
+    def block_returns(self, blk):
+        if blk[2] is not None and blk[2][0] == "return":
+            return True
+        return bool(blk[1]) and blk[1][-1][0] == "return"
 
     def is_place_expr(self, e):
         return e[0] in ("path", "field", "index", "deref", "paren")
@@ -1247,7 +1288,15 @@ class Interp:
                 raise TranslateError("comparison of non-scalars")
             return {"<": ("Lt", a, b), "<=": ("Le", a, b), ">": ("Lt", b, a), ">=": ("Le", b, a)}[op]
         if op in ("==", "!="):
-            raise TranslateError("== / != not supported in kernels")
+            if is_scalar(a) and is_scalar(b):
+                return ("Eqf", a, b) if op == "==" else ("Not", ("Eqf", a, b))
+            if isinstance(a, SArray) and isinstance(b, SArray) and len(a.items) == len(b.items) and \
+                    all(is_scalar(x) and is_scalar(y) for x, y in zip(a.items, b.items)):
+                acc = ("True",)
+                for x, y in reversed(list(zip(a.items, b.items))):
+                    acc = ("And", ("Eqf", x, y), acc)
+                return acc if op == "==" else ("Not", acc)
+            raise TranslateError("== / != on values other than f64 or [f64; N] is not supported in kernels")
         if op not in OP_TRAIT:
             raise TranslateError("operator %s not supported" % op)
         if is_scalar(a) and is_scalar(b):
@@ -1674,7 +1723,7 @@ def emit_expr(e):
 
 def emit_bexpr(b):
     k = b[0]
-    if k in ("Lt", "Le"):
+    if k in ("Lt", "Le", "Eqf"):
         return "(%s %s %s)" % (k, emit_expr(b[1]), emit_expr(b[2]))
     if k in ("And", "Or"):
         return "(B%s %s %s)" % (k, emit_bexpr(b[1]), emit_bexpr(b[2]))
